@@ -89,9 +89,11 @@ def build_dataset(rng, kind):
     ds = MazeDataset.generate(cfg, verbose=False)
     mazes = list(ds.mazes)
 
-    def clone(m, flip_conn=0, bump_sol=0):
+    def clone(m, flip_conn=0, bump_sol=0, sol_dtype=None):
         cl = np.array(m.connection_list, copy=True)
         sol = np.array(m.solution, copy=True)
+        if sol_dtype is not None:
+            sol = sol.astype(sol_dtype)  # the same value in another representation (e.g. int8 after a minimal-format reload)
         idx = [(d, i, j) for d in range(2) for i in range(n) for j in range(n)]
         for t in range(flip_conn):
             d, i, j = idx[(7 * t + 3) % len(idx)]
@@ -108,6 +110,8 @@ def build_dataset(rng, kind):
         for p_ in pos[: int(rng.integers(1, 4))]:
             mazes.insert(p_, clone(src))
         mazes.append(clone(mazes[0]))
+        mazes.insert(1, clone(mazes[-2], sol_dtype=np.int8))
+        mazes.append(clone(mazes[2], sol_dtype=np.int16))
     elif kind == "near":
         src = mazes[int(rng.integers(0, len(mazes)))]
         mazes.insert(0, clone(src, flip_conn=1))
